@@ -8,7 +8,7 @@ E2EVAL = ['12', '7'] + ['aB'] * 8 + ['aB.c_'] * 4 + ['aB, c_)'] * 2 + ['junit', 
 NAMES = ['-g', '-sg', '-xsg', 'TEST(', 'IGNORE_TEST(']
 PROBE = 'probe test group and name: any bytes, 0..2 characters each'
 NEXT = {2: 'no next argument', 3: 'next argument any 0..2 bytes'}
-KF = ['-DKF_C12_1']
+KF = []   # the open finding's -DKF_C12_1 is added by run.py from known_findings.json
 HANDLERS = ['_ZN20CommandLineArguments14setRepeatCountEiPKPKcRi', '_ZN20CommandLineArguments10setShuffleEiPKPKcRi',
             '_ZN20CommandLineArguments14addGroupFilterEiPKPKcRi', '_ZN20CommandLineArguments20addStrictGroupFilterEiPKPKcRi',
             '_ZN20CommandLineArguments21addExcludeGroupFilterEiPKPKcRi', '_ZN20CommandLineArguments27addExcludeStrictGroupFilterEiPKPKcRi',
@@ -55,6 +55,7 @@ SPEC = {
             [ob('harness_filter_match', bounds='TestFilter::match: filter any 0..3 bytes, name any 0..4 bytes, strict/invert symbolic')] +
             [ob('harness_flag_%d' % k, bounds='whole parser, argv = {%s}; ' % FLAGS[k] + PROBE) for k in range(13)] +
             [ob('harness_e2e_%d' % k, bounds='whole parser, option %s with the value "%s", attached or separated, alone or with -v before or after it; ' % (KNAME[k], E2EVAL[k]) + PROBE + ('; [KF_C12_1]' if k in (12, 13) else '')) for k in range(18)] +
-            [ob('harness_e2e_bare_%d' % k, bounds='whole parser, argv = {%s, -c} in either order, any clock value' % ['-r', '-s'][k]) for k in range(2)],
+            [ob('harness_e2e_bare_%d' % k, bounds='whole parser, argv = {%s, -c} in either order, any clock value' % ['-r', '-s'][k]) for k in range(2)] +
+            [ob('finding_exclude_dotted', expect='fail', bounds='argv {-xtG.a} against TEST(G, b) (open known finding KF-C12-1)')],
     }],
 }
